@@ -244,7 +244,7 @@ PROPS = {
         ['independence of the two copies is value semantics of emap::Map::clone (trusted; Kani audit in the thorough tier)'],
         extra=dict(classify=classify_config_sensitive(SENSITIVE_NONDET), classify_exempt=('clone',))),
     'C18': dict(
-        units=['U_xml'], level='proof',
+        units=['U_xml', 'U_hex'], level='proof',
         technique='contract-based deductive verification (Verus) of the real to_xml() and to_dot(): the element tree handed to '
                   'the XML builder equals xml_doc(abstract graph) (one <v> per present vertex, ascending, edges in label '
                   'order, data if any); to_dot() emits one node line per present vertex and one line per edge; xml-builder, '
@@ -292,7 +292,7 @@ PROPS = {
         extra=dict(units=['U_ops', 'U_model', 'U_slice'], classify=classify_config_sensitive(SENSITIVE_SIZE + SENSITIVE_NONDET))),
 
     'C11': dict(
-        units=['U_mergelog'], level='proof',
+        units=['U_mergelog', 'U_ops'], level='proof',
         technique='contract-based deductive verification (Verus) of the real merge()/merge_rec() against a ghost transcript of the '
                   'calls made on the left graph: the operations on the left graph are stubs that only append to the transcript; '
                   'the contract says which calls the right graph justifies; composition lemma over the recursion',
@@ -325,7 +325,7 @@ PROPS = {
                      '(trees of present vertices)', 'the left graph is well-formed on entry (only used for self.len())'],
     ),
     'C12': dict(
-        units=['U_merge'], level='proof',
+        units=['U_merge', 'U_ops'], level='proof',
         technique='contract-based deductive verification (Verus) of the real merge()/merge_rec(): invariant "every key of '
                   '`mapped` is a present right vertex reachable from `right`", counting lemma (as many keys as present '
                   'vertices => every present vertex is a key), termination measure of the recursion; the operations on the '
@@ -361,7 +361,7 @@ PROPS = {
                      'the left graph is well-formed on entry (only used for self.len())'],
     ),
     'C13': dict(
-        units=['U_slice', 'U_model'], level='proof',
+        units=['U_slice', 'U_model', 'U_ops'], level='proof',
         technique='contract-based deductive verification (Verus) of the real slice()/slice_some(): work-list invariant '
                   '(discovered / queued / expanded sets), rebuild invariant, termination measures; callees empty/add/bind '
                   'by contract only; std HashSet and the emap filter iterator by trusted contracts',
